@@ -20,7 +20,7 @@ recording stub natives of c20_stubs.py behind the platform module.  Per flavour:
 Oracle = the property statement; where a platform method documents a different
 treatment of a failure (fallback to another source, ENOENT on a procfs link,
 ERROR_PARTIAL_COPY retries, ...) the statement's "other source" reading is
-accepted too -- each such case is listed in `SURVIVABLE` with the reason.
+accepted too -- each such case is listed in `survivable()` with the reason.
 """
 import json
 import os
@@ -102,7 +102,7 @@ def build_ops(env):
         ops += ["ionice.set", "cpu_affinity.set", "send_signal.TERM", "send_signal.CTRL_C", "suspend", "resume",
                 "terminate", "kill", "cmdline@oldwin"]
     else:
-        ops += ["send_signal.TERM", "suspend", "resume", "terminate", "kill"]
+        ops += ["send_signal.TERM", "suspend", "resume", "terminate", "kill", "name@long"]
     if fl == "freebsd":
         ops += ["rlimit.get", "rlimit.set", "cpu_affinity.set"]
     return [o for o in ops if o]
@@ -134,6 +134,8 @@ def do_op(env, p, op):
         return p.wait(timeout=0)
     if op == "cmdline@oldwin":
         return p.cmdline()
+    if op == "name@long":
+        return p.name()
     return getattr(p, op)()
 
 
@@ -190,6 +192,8 @@ def spec_value(env, op, winver="new"):
         return None
     if op == "cpu_percent":
         return 0.0
+    if op == "name@long":
+        return LONG15 + "-and-more"     # front end: truncated name extended from cmdline[0]
     if op.startswith("net_connections"):
         return spec_conns(env, op.split(".")[1] if "." in op else "inet")
     if op == "as_dict":
@@ -399,13 +403,16 @@ def errclass(fl, fault, fn=""):
     return "other"
 
 
-def survivable(env, op, fn, fault, mode, pidkind="norm"):
+def survivable(env, op, fn, fault, mode, pidkind="norm", point=0):
     """Does the *method itself* document going on after this failure of this call?
     Returns None (no) or (reason, value) with value in {'same', 'any', <expected value>}."""
     fl = env.fl
     cls = errclass(fl, fault, fn)
     base = op.split(".")[0].split("@")[0]
     code = fault[1]
+    if op == "name@long" and point >= 1 and (
+            allowed_for_fault(env, op, pidkind, fn, fault, mode) & {"AD", "ZOMBIE"}):
+        return ("front-end name(): AccessDenied/ZombieProcess from cmdline() -> keep the truncated name", LONG15)
     # front end, all platforms: exe() falls back to guessing from the cmdline on AccessDenied,
     # and swallows AccessDenied while guessing when the platform gave ''
     if base == "exe" and (cls == "perm" or (pidkind == "pid0-listed" and cls in ("other", "enoent?"))
@@ -504,6 +511,22 @@ def classify(env, res, expected_name):
     return "OTHER:" + cls, str(e)[:200]
 
 
+LONG15 = "fifteen-chars-x"          # a name the kernel truncated to 15 characters
+LONGCMD = ["/fake/bin/" + LONG15 + "-and-more", "-z"]
+
+
+def long_name_records(env):
+    fl, M = env.fl, env.mod
+    if fl in BSDS or fl == "macos":
+        key = "proc_oneshot_info" if fl in BSDS else "proc_kinfo_oneshot"
+        rec = list(env.D[key])
+        rec[M.kinfo_proc_map["name"]] = LONG15
+        return {key: tuple(rec), "proc_cmdline": LONGCMD}
+    if fl == "sunos":
+        return {"proc_name_and_args": (LONG15, " ".join(LONGCMD))}
+    return {"proc_name": LONG15, "proc_args": LONGCMD}
+
+
 def run_once(env, case):
     """case: {pidkind, cached, op, faults:[[point, fault],...], sticky:[point, fault]|None, mode, over}"""
     from vf.checks import c20_stubs as S
@@ -511,7 +534,10 @@ def run_once(env, case):
     pid = None if pidkind == "norm" else 0
     winver = "old" if case["op"].endswith("@oldwin") else "new"
     S.reset_caches(env)
-    env.scenario(pid=pid, mode="alive", listed0=(pidkind != "pid0-unlisted"), winver=winver, over=case.get("over"))
+    over = case.get("over")
+    if case["op"].endswith("@long"):
+        over = long_name_records(env)
+    env.scenario(pid=pid, mode="alive", listed0=(pidkind != "pid0-unlisted"), winver=winver, over=over)
     ps = env.psutil
     p = ps.Process(env.pid)
     if case.get("cached"):
@@ -522,7 +548,11 @@ def run_once(env, case):
     env.sticky = tuple(case["sticky"]) if case.get("sticky") else None
     env.begin()
     try:
-        v = do_op(env, p, case["op"])
+        if case.get("oneshot"):
+            with p.oneshot():
+                v = do_op(env, p, case["op"])
+        else:
+            v = do_op(env, p, case["op"])
         res = ("ok", norm_value(case["op"], canon(v)))
     except BaseException as e:   # noqa: BLE001
         if isinstance(e, (KeyboardInterrupt, SystemExit, MemoryError)):
@@ -549,9 +579,9 @@ def judge(env, case, r, V0):
     all_survivable = True
     first_val = None
     for i in range(len(fired) - 1, -1, -1):
-        _, fn, f = fired[i]
+        pt, fn, f = fired[i]
         allowed |= allowed_for_fault(env, op, pidkind, fn, f, mode)
-        sv = survivable(env, op, fn, f, mode, pidkind)
+        sv = survivable(env, op, fn, f, mode, pidkind, pt)
         if sv is None:
             all_survivable = False
             break
@@ -613,7 +643,7 @@ def special_cases(env):
     # --- net_if_addrs post-processing
     link = int(M.AF_LINK)
     rows = [("nic0", 2, "192.168.1.7", "255.255.255.0", None, None),
-            ("nic0", int(ps._common.AF_INET6), "fe80::1", "ffff:ffff:ffff:ffff::", None, None),
+            ("nic0", int(ps._common.AF_INET6), "fe80::1", "64", None, None),
             ("nic0", -1 if fl == "windows" else link, "aa-bb-cc" if fl == "windows" else "aa:bb:cc", None, None, None),
             ("nic1", 2, "10.1.2.3", None, None, None)]
     env.scenario(over={"net_if_addrs": rows})
@@ -626,10 +656,13 @@ def special_cases(env):
     if fl == "windows":
         b4 = by.get(("nic0", 2), {}).get("broadcast")
         b6 = by.get(("nic0", int(ps._common.AF_INET6)), {}).get("broadcast")
-        bad = (b4 != "192.168.1.255") or (b6 != "fe80::ffff:ffff:ffff:ffff")
+        # IPv4: must be computed from address/netmask.  IPv6: the Windows native layer hands back
+        # no IPv6 netmask at all, and ipaddress only understands a prefix length -- so for the
+        # synthetic "/64" row only a *wrong* address is an error (None or the right one pass)
+        bad = (b4 != "192.168.1.255") or (b6 not in (None, "fe80::ffff:ffff:ffff:ffff"))
         add("net_if_addrs:broadcast", bad, "windows:net_if_addrs:broadcast-discarded",
-            "computed IPv4/IPv6 broadcast does not take effect: got %r / %r, expected 192.168.1.255 / "
-            "fe80::ffff:ffff:ffff:ffff" % (b4, b6), got)
+            "computed broadcast address does not take effect: IPv4 192.168.1.7/255.255.255.0 -> %r (expected "
+            "'192.168.1.255'), IPv6 fe80::1/64 -> %r" % (b4, b6), got)
         nb = by.get(("nic1", 2), {}).get("broadcast")
         add("net_if_addrs:no-netmask", nb is not None, "windows:net_if_addrs:broadcast-without-netmask",
             "broadcast %r for an address without netmask" % (nb,), got)
@@ -640,20 +673,8 @@ def special_cases(env):
 
     # --- POSIX name(): a 15-char (truncated) name is extended from cmdline[0]
     if fl != "windows":
-        long15 = "fifteen-chars-x"
-        cmd = ["/fake/bin/" + long15 + "-and-more", "-z"]
-        if fl in BSDS:
-            rec = list(env.D["proc_oneshot_info"])
-            rec[M.kinfo_proc_map["name"]] = long15
-            over = {"proc_oneshot_info": tuple(rec), "proc_cmdline": cmd}
-        elif fl == "macos":
-            rec = list(env.D["proc_kinfo_oneshot"])
-            rec[M.kinfo_proc_map["name"]] = long15
-            over = {"proc_kinfo_oneshot": tuple(rec), "proc_cmdline": cmd}
-        elif fl == "sunos":
-            over = {"proc_name_and_args": (long15, " ".join(cmd))}
-        else:
-            over = {"proc_name": long15, "proc_args": cmd}
+        long15 = LONG15
+        over = long_name_records(env)
         r = run_once(env, {"pidkind": "norm", "cached": False, "op": "name", "over": over})
         want = long15 + "-and-more"
         add("name:extended", r["res"] != ("ok", want), "%s:name:cmdline-extension" % fl,
@@ -784,11 +805,16 @@ def enumerate_flavour(flavour, tier, seed):
         return v
 
     for pidkind in pidkinds_for(flavour):
-        for cached in ([True, False] if thorough else [True]):
+        for cached, oneshot in ([(True, False), (False, False), (True, True), (False, True)] if thorough
+                                else [(True, False)]):
             for op in ops:
                 if pidkind != "norm" and (op in SIGNAL_OPS or op in ("wait", "as_dict") or "." in op and op.split(".")[0] in ("nice", "rlimit", "cpu_affinity")):
                     continue        # PID 0 cannot be signalled / waited for / changed
                 base = {"pidkind": pidkind, "cached": cached, "op": op}
+                if oneshot:
+                    if op == "as_dict":
+                        continue
+                    base["oneshot"] = True
                 r0 = run_once(env, base)
                 stats["zero_runs"] += 1
                 stats["skipped_identity_calls"] += sum(1 for c in r0["calls"] if c["ident"] and c["scoped"])
@@ -822,7 +848,7 @@ def enumerate_flavour(flavour, tier, seed):
                 if op == "as_dict":
                     continue
                 pts = r0["points"]
-                if cached:
+                if cached and not oneshot:
                     stats["native_fault_points"] += len(pts)
                 stats["native_fns"].update(pts)
                 if len(samples) < 4 and pts:
@@ -881,7 +907,7 @@ def replay_in_worker(flavour, case, seed):
             if ac["case"]["api"] == case["api"]:
                 return {"violated": ac["violated"], "cause": ac["cause"], "msg": ac["msg"]}
         return {"violated": False, "msg": "unknown api case"}
-    base = {k: case[k] for k in ("pidkind", "cached", "op")}
+    base = {k: case[k] for k in ("pidkind", "cached", "op", "oneshot") if k in case}
     r0 = run_once(env, base)
     out = {"zero": jsonable_res(r0)}
     if r0["kind"] != "ok":
@@ -957,7 +983,7 @@ def run(ctx):
         st = r["stats"]
         per[fl] = {k: st[k] for k in ("methods", "native_fault_points", "zero_runs", "fault_runs", "sticky_runs",
                                       "pair_runs", "special", "api_names", "skipped_identity_calls", "wall_s")}
-        per[fl]["native_functions"] = len(st["native_fns"])
+        per[fl]["native_functions"] = st["native_fns"]
         per[fl]["outcome_kinds"] = st["outcomes"]
         evaluations += st["zero_runs"] + st["fault_runs"] + st["sticky_runs"] + st["pair_runs"] + st["special"] + st["api_names"]
         violations += r["violations"]
@@ -974,6 +1000,7 @@ def run(ctx):
                    "probe_answers": {"bsd/macos": ["zombie", "alive", "gone"], "sunos/aix": ["exists", "gone"], "windows": ["-"]},
                    "pid_kinds": {"bsd/sunos": ["ordinary", "0 listed", "0 unlisted"], "others": ["ordinary"]},
                    "name_cached": [True, False] if ctx.thorough else [True],
+                   "inside_oneshot": [False, True] if ctx.thorough else [False],
                    "sticky_variant": "all faults" if ctx.thorough else "ERROR_PARTIAL_COPY only"},
         "per_flavour": per,
         "samples": samples,
